@@ -196,8 +196,27 @@ func ctorCalls(v ssa.Value, dv *dev, seen map[ssa.Value]bool) ([]*ssa.Call, bool
 	seen[v] = true
 	switch x := v.(type) {
 	case *ssa.Call:
-		if f := x.Call.StaticCallee(); f != nil && dv.ctors[f] {
+		f := x.Call.StaticCallee()
+		if f != nil && dv.ctors[f] {
 			return []*ssa.Call{x}, true
+		}
+		// a helper of the device package that returns what a constructor returned (held.offEvent())
+		if f != nil && f.Blocks != nil && dv.p.OwnedFunc(f) && f.Signature.Results().Len() == 1 {
+			var out []*ssa.Call
+			for _, b := range f.Blocks {
+				for _, in := range b.Instrs {
+					ret, ok := in.(*ssa.Return)
+					if !ok {
+						continue
+					}
+					cs, ok := ctorCalls(ret.Results[0], dv, seen)
+					if !ok || len(cs) == 0 {
+						return nil, false
+					}
+					out = append(out, cs...)
+				}
+			}
+			return out, len(out) > 0
 		}
 		return nil, false
 	case *ssa.Phi:
@@ -212,6 +231,12 @@ func ctorCalls(v ssa.Value, dv *dev, seen map[ssa.Value]bool) ([]*ssa.Call, bool
 		return out, true
 	case *ssa.ChangeType:
 		return ctorCalls(x.X, dv, seen)
+	case *ssa.UnOp:
+		// an element of a list of messages that a helper of the package built from constructor results
+		if ia, ok := x.X.(*ssa.IndexAddr); ok && x.Op == token.MUL {
+			return sliceElemCtorCalls(ia.X, dv, seen)
+		}
+		return nil, false
 	case *ssa.Parameter:
 		// a helper that sends its argument: resolve through every static call site
 		fn := x.Parent()
@@ -688,4 +713,74 @@ func ruleConfigOnlyFromParser(c *Ctx, pf *parserFacts, rule string) {
 			c.Bad(rule, "literals(config."+typ+")@"+shortFn(a.Parent()), c.P.Pos(a.Pos()), "config."+typ+" value built outside ParseData: parser-established bounds do not cover it")
 		}
 	}
+}
+
+// sliceElemCtorCalls: every element the slice value s can hold is a constructor result: s is returned by a helper of the
+// package whose every return is nil or a slice literal of constructor results (or s is such a literal itself).
+func sliceElemCtorCalls(s ssa.Value, dv *dev, seen map[ssa.Value]bool) ([]*ssa.Call, bool) {
+	if seen[s] {
+		return nil, true
+	}
+	seen[s] = true
+	switch x := s.(type) {
+	case *ssa.Const:
+		return nil, x.Value == nil // the nil slice has no elements
+	case *ssa.Phi:
+		var out []*ssa.Call
+		for _, e := range x.Edges {
+			cs, ok := sliceElemCtorCalls(e, dv, seen)
+			if !ok {
+				return nil, false
+			}
+			out = append(out, cs...)
+		}
+		return out, true
+	case *ssa.Slice:
+		arr, ok := x.X.(*ssa.Alloc)
+		if !ok || x.Low != nil || x.High != nil {
+			return nil, false
+		}
+		var out []*ssa.Call
+		n := 0
+		for _, r := range *arr.Referrers() {
+			switch y := r.(type) {
+			case *ssa.IndexAddr:
+				for _, rr := range *y.Referrers() {
+					st, isStore := rr.(*ssa.Store)
+					if !isStore || st.Addr != ssa.Value(y) {
+						return nil, false
+					}
+					cs, ok := ctorCalls(st.Val, dv, seen)
+					if !ok || len(cs) == 0 {
+						return nil, false
+					}
+					out = append(out, cs...)
+					n++
+				}
+			case *ssa.Slice:
+			default:
+				return nil, false
+			}
+		}
+		return out, n > 0
+	case *ssa.Call:
+		f := x.Call.StaticCallee()
+		if f == nil || f.Blocks == nil || !dv.p.OwnedFunc(f) || f.Signature.Results().Len() != 1 {
+			return nil, false
+		}
+		var out []*ssa.Call
+		for _, b := range f.Blocks {
+			for _, in := range b.Instrs {
+				if ret, ok := in.(*ssa.Return); ok {
+					cs, ok := sliceElemCtorCalls(ret.Results[0], dv, seen)
+					if !ok {
+						return nil, false
+					}
+					out = append(out, cs...)
+				}
+			}
+		}
+		return out, len(out) > 0
+	}
+	return nil, false
 }
